@@ -111,6 +111,21 @@ fn gen_stamp(rng: &mut Rng, base_s: i64, spread_s: i64, notation: u64) -> Stamp 
     Stamp { text, instant_ns: i128::from(instant_s) * 1_000_000_000 + i128::from(nanos) }
 }
 
+/// A stamp inside the second `instant_s`: a fraction written with 0-9 digits (leading and trailing zeros as they come), any offset notation.
+fn gen_stamp_in_second(rng: &mut Rng, instant_s: i64) -> Stamp {
+    let digits = rng.urange(0, 9);
+    let nanos = if digits == 0 {
+        0
+    } else {
+        let keep = 10u32.pow(9 - digits as u32);
+        rng.below(1_000_000_000) as u32 / keep * keep
+    };
+    let offsets: [i32; 8] = [0, 0, 0, 60, 330, -210, 840, -720];
+    let offset_min = *rng.pick(&offsets);
+    let zulu = rng.below(4) as u8;
+    Stamp { text: format_rfc3339(instant_s, nanos, digits, offset_min, zulu), instant_ns: i128::from(instant_s) * 1_000_000_000 + i128::from(nanos) }
+}
+
 // ---------------------------------------------------------------------------
 // hostile strings
 
@@ -437,18 +452,29 @@ fn phase_a_cases(rng: &mut Rng) -> Vec<DbCase> {
         cases.push(DbCase { label: format!("A:build_time:{class}"), builds: vec![control, only], focus: Some(("build_time".to_string(), class.to_string(), subject)) });
     }
     // timestamp pairs: the older-by-instant build is made to look newer as a string
-    let ts_pairs: [(&str, (i64, i32, u8, usize), (i64, i32, u8, usize)); 6] = [
-        // (class, newest: (delta_s, offset_min, zulu, frac), older: (...))
-        ("east-offset-looks-later", (3600 * 4, 0, 0, 0), (3600, 540, 0, 0)),
-        ("west-offset-looks-earlier", (3600 * 20, -480, 0, 0), (3600 * 18, 0, 0, 0)),
-        ("z-vs-numeric-offset", (10, 0, 0, 0), (5, 0, 1, 0)),
-        ("fraction-vs-none", (100, 0, 1, 0), (99, 0, 1, 3)),
-        ("day-boundary-offset", (86_400 + 600, -720, 0, 0), (86_400 - 600, 840, 0, 0)),
-        ("same-notation-control", (7200, 0, 0, 0), (3600, 0, 0, 0)),
+    // a stamp is (delta_s, offset_min, zulu, fraction digits, nanoseconds)
+    type PairStamp = (i64, i32, u8, usize, u32);
+    let ts_pairs: [(&str, PairStamp, PairStamp); 13] = [
+        // (class, newest, older)
+        ("east-offset-looks-later", (3600 * 4, 0, 0, 0, 0), (3600, 540, 0, 0, 0)),
+        ("west-offset-looks-earlier", (3600 * 20, -480, 0, 0, 0), (3600 * 18, 0, 0, 0, 0)),
+        ("z-vs-numeric-offset", (10, 0, 0, 0, 0), (5, 0, 1, 0, 0)),
+        ("fraction-vs-none", (100, 0, 1, 0, 0), (99, 0, 1, 3, 500_000_000)),
+        ("day-boundary-offset", (86_400 + 600, -720, 0, 0, 0), (86_400 - 600, 840, 0, 0, 0)),
+        ("same-notation-control", (7200, 0, 0, 0, 0), (3600, 0, 0, 0, 0)),
+        // both builds within ONE second: only the fractional seconds decide, and a fraction is a decimal fraction however
+        // many digits it is written with (.5 > .25, .3 > .050, .1 > .09)
+        ("same-second|fraction-1-digit-later-than-2-digits", (10, 0, 1, 1, 500_000_000), (10, 0, 1, 2, 250_000_000)),
+        ("same-second|fraction-2-digits-later-than-1-digit", (10, 0, 1, 2, 250_000_000), (10, 0, 1, 1, 100_000_000)),
+        ("same-second|fraction-1-digit-later-than-3-digits-leading-zero", (10, 0, 0, 1, 300_000_000), (10, 0, 0, 3, 50_000_000)),
+        ("same-second|fraction-3-digits-later-than-9-digits", (10, 0, 1, 3, 124_000_000), (10, 0, 1, 9, 123_456_789)),
+        ("same-second|fraction-6-digits-leading-zeros-later-than-none", (10, 0, 1, 6, 1_000), (10, 0, 1, 0, 0)),
+        ("same-second|fraction-1-digit-later-than-6-digits|offsets-differ", (10, 330, 0, 1, 700_000_000), (10, -210, 0, 6, 699_999_000)),
+        ("same-second|fraction-9-digits-later-than-1-digit|offsets-differ", (10, 0, 2, 9, 400_000_001), (10, 840, 0, 1, 400_000_000)),
     ];
     // every pair once alone and once in a database in which ANOTHER product's only build carries a timestamp that is not
     // an RFC 3339 date-time: what is newest for one product must not depend on the other products in the file
-    let mut pair_cases: Vec<(&str, (i64, i32, u8, usize), (i64, i32, u8, usize), Option<&str>)> = Vec::new();
+    let mut pair_cases: Vec<(&str, PairStamp, PairStamp, Option<&str>)> = Vec::new();
     for (i, (class, newest, older)) in ts_pairs.iter().enumerate() {
         pair_cases.push((class, *newest, *older, None));
         pair_cases.push((class, *newest, *older, Some(TS_GARBAGE[i % TS_GARBAGE.len()].0)));
@@ -474,8 +500,9 @@ fn phase_a_cases(rng: &mut Rng) -> Vec<DbCase> {
         let class_owned = if foreign.is_some() { format!("{class}+another-product-with-a-non-rfc3339-timestamp") } else { class.to_string() };
         let class = class_owned.as_str();
         let subject = format!("subj_{}", token(rng, 3, 5));
-        let mk = |(delta, off, zulu, frac): (i64, i32, u8, usize)| {
-            let nanos = if frac > 0 { 500_000_000 } else { 0 };
+        let mk = |(delta, off, zulu, frac, nanos): PairStamp| {
+            // the text must denote the instant exactly: no digit is cut off
+            debug_assert!(if frac == 0 { nanos == 0 } else { nanos % 10u32.pow(9 - frac as u32) == 0 });
             Stamp { text: format_rfc3339(base + delta, nanos, frac, off, zulu), instant_ns: i128::from(base + delta) * 1_000_000_000 + i128::from(nanos) }
         };
         // order in the file: newest first or last, alternately
@@ -521,6 +548,11 @@ fn phase_b_case(rng: &mut Rng, idx: usize, hostile_pct: u64) -> DbCase {
                 gen_stamp(rng, base, spread, n)
             })
             .collect();
+        if nb >= 2 && !tie && rng.chance(1, 4) {
+            // all builds of the product within one second: only the fractional seconds (0-9 digits, any notation) tell them apart
+            let second = base + rng.range(0, spread as u64) as i64;
+            stamps = (0..nb).map(|_| gen_stamp_in_second(rng, second)).collect();
+        }
         if tie {
             // two builds denoting the same instant in different notations
             let s0 = (stamps[0].instant_ns / 1_000_000_000) as i64;
@@ -1019,6 +1051,9 @@ async fn run_db(ctx: &Ctx, case: DbCase, implicated: &Implicated, stream: u64) {
         let string_max = all.iter().max_by(|a, b| a.rec.build_time.cmp(&b.rec.build_time)).map(|b| b.instant_ns);
         if all.len() > 1 && string_max != Some(max) {
             ctx.obs("newest.string_order_differs_from_instant_order", 1);
+        }
+        if all.iter().any(|b| b.instant_ns != max && b.instant_ns.div_euclid(1_000_000_000) == max.div_euclid(1_000_000_000)) {
+            ctx.obs("newest.decided_by_fractional_seconds", 1);
         }
         let tcp_ok = tcp_requestable(product);
         let http_ok = http_requestable(product);
@@ -1735,7 +1770,7 @@ fn main() {
     if ctx.get_obs("request.tcp-v1.versions") == 0 || ctx.get_obs("request.tcp-v2.versions") == 0 || ctx.get_obs("request.http.versions") == 0 {
         ctx.inconclusive("a transport was never exercised");
     }
-    for k in ["config.servers_started_with_Server::run", "config.request.tcp-v1.cdns", "config.request.http.cdns", "unknown-product.request.tcp-v1", "unknown-product.request.tcp-v2", "unknown-product.request.http", "reader.replies", "reader.parse_schema.agrees", "reader.from_path.agrees", "reader.trickling-reader.agrees"] {
+    for k in ["newest.decided_by_fractional_seconds", "config.servers_started_with_Server::run", "config.request.tcp-v1.cdns", "config.request.http.cdns", "unknown-product.request.tcp-v1", "unknown-product.request.tcp-v2", "unknown-product.request.http", "reader.replies", "reader.parse_schema.agrees", "reader.from_path.agrees", "reader.trickling-reader.agrees"] {
         if ctx.get_obs(k) == 0 {
             ctx.inconclusive(&format!("a sub-workload the verdict relies on never ran or was never judged: {k}"));
         }
